@@ -11,6 +11,78 @@ WRAP_PARAMS = ["args", "a", "G0", "x", "fn_args"]
 BUILTIN_NAMES = ["abs", "round", "hash", "repr"]  # builtins the generated code itself never uses
 
 
+# ---------------------------------------------------------------- typed literals (defaults, extra constants)
+# A default / extra constant is an int or {"t": type, "v": json value}.  Every type has a literal, an
+# int-valued use and a behaviour-changing bump.
+DTYPES = ["int", "int", "str", "bytes", "tuple", "fset", "float", "none", "complex", "neg", "ntuple", "bool"]
+
+
+def gen_typed(rng, t=None):
+    t = t or rng.choice(DTYPES)
+    if t == "int":
+        return rng.randint(1, 5)
+    v = {"str": lambda: "s" * rng.randint(1, 4), "bytes": lambda: "b" * rng.randint(1, 4),
+         "tuple": lambda: [rng.randint(1, 5) for _ in range(rng.randint(1, 3))],
+         "fset": lambda: sorted(rng.sample(range(1, 9), rng.randint(2, 3))),
+         "float": lambda: rng.randint(1, 5) + 0.25, "none": lambda: None, "complex": lambda: [rng.randint(1, 4), rng.randint(1, 4)],
+         "neg": lambda: -rng.randint(1, 5), "ntuple": lambda: [[rng.randint(1, 4), rng.randint(1, 4)], rng.randint(1, 4)],
+         "bool": lambda: rng.random() < 0.5}[t]()
+    return {"t": t, "v": v}
+
+
+def dlit(d):
+    if not isinstance(d, dict):
+        return repr(d)
+    t, v = d["t"], d["v"]
+    if t == "bytes":
+        return repr(v.encode())
+    if t == "tuple":
+        return repr(tuple(v))
+    if t == "fset":
+        return "frozenset({%s})" % ", ".join(repr(x) for x in v)
+    if t == "complex":
+        return "(%d+%dj)" % (v[0], v[1])
+    if t == "ntuple":
+        return repr((tuple(v[0]), v[1]))
+    return repr(v)
+
+
+def duse(name, d):
+    if not isinstance(d, dict):
+        return name
+    return {"str": "len(%s)", "bytes": "len(%s)", "tuple": "(sum(%s) + %s[0])", "fset": "sum(%s)", "float": "int(%s * 4)",
+            "none": "(0 if %s is None else (3 if %s is False else 5))", "complex": "int(%s.real * 3 + %s.imag)",
+            "neg": "%s", "ntuple": "(%s[0][1] * 2 + %s[1] + %s[0][0] * 5)",
+            "bool": "(4 if %s is True else (1 if %s is False else 9))"}[d["t"]].replace("%s", name)
+
+
+def bump_typed(rng, d):
+    """A different value of the same kind whose use gives a different int (types may move between
+    clearly distinct ones: None -> False -> 0, True -> 1)."""
+    if not isinstance(d, dict):
+        return d + rng.randint(1, 5)
+    t, v = d["t"], d["v"]
+    if t in ("str", "bytes"):
+        v = v + v[0]
+    elif t == "tuple":
+        v = (v[:-1] + [v[-1] + rng.randint(1, 3)]) if rng.random() < 0.6 else v + [rng.randint(1, 3)]
+    elif t == "fset":
+        v = sorted(set(v) ^ {rng.choice([x for x in range(1, 12) if x not in v])})
+    elif t == "float":
+        v = v + rng.choice([0.25, 0.5, 1.0])
+    elif t == "none":
+        v = {None: False, False: 0}.get(v, None) if v is None or v is False else None
+    elif t == "complex":
+        v = [v[0], v[1] + 1] if rng.random() < 0.5 else [v[0] + 1, v[1]]
+    elif t == "neg":
+        v = v - rng.randint(1, 3)
+    elif t == "ntuple":
+        v = [[v[0][0], v[0][1] + 1], v[1]] if rng.random() < 0.5 else [[v[0][0] + 1, v[0][1]], v[1]]
+    elif t == "bool":
+        v = False if v is True else (1 if v is False else True)  # True -> False -> 1 -> True
+    return {"t": t, "v": v}
+
+
 # ---------------------------------------------------------------- generation
 def gen_program(rng, pkg, n=None, p_explicit=0.15, p_hidden=0.12, min_memento=2, p_lambda_pair=0.3, p_shadow=0.2):
     n = n or rng.randint(3, 7)
@@ -37,9 +109,11 @@ def gen_program(rng, pkg, n=None, p_explicit=0.15, p_hidden=0.12, min_memento=2,
         if kind == "memento" and rng.random() < p_explicit:
             nd["version"] = "v1"
         if rng.random() < 0.4:
-            nd["params"].append(["y", rng.randint(1, 5)])
+            nd["params"].append(["y", gen_typed(rng)])
         if rng.random() < 0.3:
-            nd["kwonly"].append(["k", rng.randint(1, 5)])
+            nd["kwonly"].append(["k", gen_typed(rng)])
+        if rng.random() < 0.45:
+            nd["xconst"] = gen_typed(rng, rng.choice([t for t in DTYPES if t not in ("int", "none", "bool")]))
         if rng.random() < 0.4:
             nd["tconst"] = [rng.randint(1, 9) for _ in range(rng.randint(2, 3))]
         if rng.random() < 0.5:
@@ -181,10 +255,10 @@ def render_def(prog, i):
     if nd["kind"] == "lambda":
         first = ("x %s %d" % (nd["op"], nd["const"])) if not nd["swap"] else ("%d %s x" % (nd["const"], nd["op"]))
         return "%s = lambda x: %s\n" % (nd["name"], first)
-    ps = [p if d is None else "%s=%r" % (p, d) for p, d in nd["params"]]
+    ps = [p if d is None else "%s=%s" % (p, dlit(d)) for p, d in nd["params"]]
     if nd["kwonly"]:
         ps.append("*")
-        ps += ["%s=%r" % (p, d) for p, d in nd["kwonly"]]
+        ps += ["%s=%s" % (p, dlit(d)) for p, d in nd["kwonly"]]
     names = [p for p, _ in nd["params"]] + [p for p, _ in nd["kwonly"]]
     L = []
     if nd["kind"] == "memento":
@@ -201,6 +275,9 @@ def render_def(prog, i):
     if nd["tconst"]:
         L.append("    tc_ = %r" % (tuple(nd["tconst"]),))
         L.append("    r += %s(tc_) + tc_[0] * 3 - tc_[-1]" % nd.get("tfn", "sum"))  # order-sensitive
+    if nd.get("xconst") is not None:
+        L.append("    xc_ = %s" % dlit(nd["xconst"]))
+        L.append("    r += %s" % duse("xc_", nd["xconst"]))
     if nd["sconst"]:
         L.append("    if \"alpha\" in {%s}:" % ", ".join(repr(s) for s in nd["sconst"]))
         L.append("        r += 1")
@@ -220,7 +297,7 @@ def render_def(prog, i):
                 inner += " + " + call_expr(prog, nd, {"t": ne["call"], "form": ne["form"], "alias": ne.get("alias")}, "t_")
             L += ["    def inner(t_):", "        return " + inner, "    r += inner(x)"]
     for p, d in nd["params"][1:] + nd["kwonly"]:
-        L.append("    r += %s" % p)
+        L.append("    r += %s" % duse(p, d))
     for late in nd.get("late", []):
         L += ["    if x < -1000:", "        r += %s(x)" % late]  # referenced, never executed
     L.append("    return r")
@@ -367,7 +444,7 @@ def apply_special(rng, prog, kind):
     raise ValueError(kind)
 
 
-EDIT_KINDS = ["const", "tconst", "tperm", "builtin", "sconst", "nested_const", "op", "swap", "add_param", "default", "kwdefault",
+EDIT_KINDS = ["const", "xconst", "tconst", "tperm", "builtin", "sconst", "nested_const", "op", "swap", "add_param", "default", "kwdefault",
               "add_call", "remove_call", "retarget_call", "retarget_alias", "var_value", "var_mutate", "version_bump",
               "hidden_target"]
 
@@ -392,6 +469,11 @@ def apply_edit(rng, prog, kind=None):
         i = cand[0]
         nodes[i]["const"] += rng.randint(1, 5)
         return done(i)
+    if kind == "xconst":
+        for i in cand:
+            if nodes[i].get("xconst") is not None:
+                nodes[i]["xconst"] = bump_typed(rng, nodes[i]["xconst"])
+                return done(i)
     if kind == "tconst":
         for i in cand:
             if nodes[i]["tconst"]:
@@ -435,18 +517,18 @@ def apply_edit(rng, prog, kind=None):
         for i in cand:
             names = [q for q, _ in nodes[i]["params"]]
             if "z" not in names:
-                nodes[i]["params"].append(["z", rng.randint(1, 9)])
+                nodes[i]["params"].append(["z", gen_typed(rng)])
                 return done(i)
     if kind == "default":
         for i in cand:
             if len(nodes[i]["params"]) > 1:
                 j = rng.randrange(1, len(nodes[i]["params"]))
-                nodes[i]["params"][j][1] += rng.randint(1, 5)
+                nodes[i]["params"][j][1] = bump_typed(rng, nodes[i]["params"][j][1])
                 return done(i)
     if kind == "kwdefault":
         for i in cand:
             if nodes[i]["kwonly"]:
-                nodes[i]["kwonly"][0][1] += rng.randint(1, 5)
+                nodes[i]["kwonly"][0][1] = bump_typed(rng, nodes[i]["kwonly"][0][1])
                 return done(i)
     if kind == "add_call":
         for i in cand:
@@ -557,6 +639,8 @@ def features(prog):
         for k in ("tconst", "sconst", "nested"):
             if nd[k]:
                 f.add(k)
+        for _, d in nd["params"][1:] + nd["kwonly"] + ([["", nd["xconst"]]] if nd.get("xconst") is not None else []):
+            f.add("lit:" + (d["t"] if isinstance(d, dict) else "int"))
         if nd["version"] is not None:
             f.add("explicit")
         if len(nd["params"]) > 1:
